@@ -183,6 +183,10 @@ func main() {
 		obs = append(obs, c.Obs...)
 		if name == "linux/amd64" {
 			notes = append(notes, c.Notes...)
+			notes = append(notes, p.RoleNotes...)
+			for _, n := range p.RoleNotes {
+				fmt.Println("NOTE:", n)
+			}
 			stats["packages"] = len(p.Pkgs)
 			stats["functions_loaded"] = len(p.FuncSeq)
 			stats["anchors_resolved"] = c.Anchors
